@@ -6,16 +6,18 @@ All theorems are about `generate` (the model of `generateBlock`) for ANY pool co
 state, any configuration, any set of built-in transactions, and any (deterministic) behaviour of the called contracts:
 `res : St → CResult` is an arbitrary function of the state the contract runs on.
 
-The property as worded is FALSE of the code in two places (both confirmed on the real miner by the C45 harness and
-registered in `known_findings.jsonl`); the affected theorems are stated `_partial` with the missing hypothesis spelled
-out and a negation witness next to them:
-* a pool transaction from any client whose function NAME equals a built-in name (`payFees`, …) is included by the
-  generator next to the generator's own transaction of that name; the verifier's `isBuildInTxn` goes by name only and
-  rejects the block (`pool_builtin_name_fails_verification`);
+The property as worded is FALSE of the code in one place (confirmed on the real miner by the C45 harness and registered
+in `known_findings.jsonl`); the affected theorems are stated `_partial` with the missing hypothesis spelled out and a
+negation witness next to them:
 * a function without a cost entry has the estimate `math.MaxInt` (nil error); added to a non-zero running cost it wraps
   negative in Go `int`, the transaction is included and the cost limit no longer binds (`cost_limit_bypassed`), or —
   when the built-in transaction that made the running cost non-zero fails to execute — the verifier, which sums only
   what is in the block, rejects the honest block (`maxint_estimate_fails_verification`).
+A second place was REPAIRED in /repo (commit 3af329c) and the model follows the repaired code: a pool transaction from
+any client whose function NAME equals a built-in name (`payFees`, …) used to be included next to the generator's own
+transaction of that name, and the verifier (`isBuildInTxn` goes by name only) rejected the block. `txnIterHandler` now
+skips such a transaction; `builtin_names_at_most_once` is unconditional and `generated_block_verifies_partial` no longer
+needs a hypothesis about names. `pool_builtin_name_skipped` / `builtin_named_pool_txn_block_rejected` keep the history.
 -/
 namespace ZChain.BlockGen
 open ZChain.Ledger
@@ -141,22 +143,32 @@ theorem nonces_consecutive_per_sender (h : generate cfg now prevDate prior pool 
   rw [ha] at hh
   exact hh
 
-/-- **builtin_at_most_once_partial** (by NAME, which is what the verifier's `isBuildInTxn` looks at). Full statement —
-"no built-in name occurs twice in a generated block" — is false (`pool_builtin_name_in_block`); it holds when no pool
-transaction of the block carries a built-in name. -/
-theorem builtin_names_at_most_once_partial (h : generate cfg now prevDate prior pool bi waitOver fuel = .ok g)
-    (hname : ∀ e ∈ (blockOf (blockDate now prevDate) g).txns, fromPool e → e.p.bname = none) :
+/-- **builtin_names_at_most_once** (by NAME, which is what the verifier's `isBuildInTxn` looks at; unconditional since
+the repair 3af329c): no built-in function name occurs twice in a generated block — the pool iteration skips every pool
+transaction that carries such a name, and nothing reaches the future / promoted lists except through that iteration. -/
+theorem builtin_names_at_most_once (h : generate cfg now prevDate prior pool bi waitOver fuel = .ok g) :
     ((blockOf (blockDate now prevDate) g).txns.filterMap (fun e => e.p.bname)).Nodup := by
   obtain ⟨_, ⟨gp, ents, hi, he, hs, _⟩, _⟩ := generate_spec cfg (blockDate now prevDate) prior pool bi waitOver fuel g h
-  change ∀ e ∈ g.incl, fromPool e → e.p.bname = none at hname
   show (g.incl.filterMap (fun e => e.p.bname)).Nodup
   rw [he, List.filterMap_append]
   have hnil : gp.incl.filterMap (fun e => e.p.bname) = [] := by
     rw [List.filterMap_eq_nil_iff]
     intro e hm
-    exact hname e (by rw [he]; exact List.mem_append_left _ hm) ⟨_, hi.keys e hm⟩
+    exact hi.names e hm
   rw [hnil, List.nil_append]
   exact Sub_names_nodup hs (list_kinds_nodup bi) (fun b hb => list_props bi b hb)
+
+/-- no pool transaction of a generated block carries a built-in function name. -/
+theorem pool_txns_not_builtin_named (h : generate cfg now prevDate prior pool bi waitOver fuel = .ok g) :
+    ∀ e ∈ (blockOf (blockDate now prevDate) g).txns, fromPool e → e.p.bname = none := by
+  obtain ⟨_, ⟨gp, ents, hi, he, hs, _⟩, _⟩ := generate_spec cfg (blockDate now prevDate) prior pool bi waitOver fuel g h
+  intro e hm ⟨n, hn⟩
+  change e ∈ g.incl at hm
+  rw [he, List.mem_append] at hm
+  rcases hm with hm | hm
+  · exact hi.names e hm
+  · obtain ⟨b', _, hk, _⟩ := Sub_mem hs e hm
+    rw [hk] at hn; cases hn
 
 theorem costSum_nonneg (l : List Entry) (hl : ∀ e ∈ l, small e) : 0 ≤ costSum l := by
   induction l with
@@ -222,18 +234,16 @@ theorem cost_below_limit_partial (h : generate cfg now prevDate prior pool bi wa
 
 /-- **generated_block_verifies_partial** (the whole `VerifyBlock` pipeline of the model: duplicate test, time
 tolerance, duplicated built-in names, cost test, re-execution, state and status comparison). Full statement — "every
-generated block verifies" — is false (`pool_builtin_name_fails_verification`, `maxint_estimate_fails_verification`).
-It holds under the two hypotheses the negation witnesses violate: no included pool transaction carries a built-in
-name, and the cost estimates are moderate (see `cost_below_limit_partial`). -/
+generated block verifies" — is false (`maxint_estimate_fails_verification`).
+It holds under the hypothesis the negation witness violates: the cost estimates are moderate (see `cost_below_limit_partial`). -/
 theorem generated_block_verifies_partial (h : generate cfg now prevDate prior pool bi waitOver fuel = .ok g)
     (htol : 0 ≤ cfg.tol)
-    (hname : ∀ e ∈ (blockOf (blockDate now prevDate) g).txns, fromPool e → e.p.bname = none)
     (hmax : cfg.maxBlockCost < two62)
     (hsmall : ∀ e ∈ (blockOf (blockDate now prevDate) g).txns, fromPool e → small e)
     (hb0 : ∀ b ∈ bi.list, 0 ≤ b.2.cost.getD 0) (hbs : bsum bi.list ≤ cfg.maxBlockCost) :
     verify cfg prior (blockOf (blockDate now prevDate) g) = .ok () := by
   have hdup := no_duplicate_txn cfg now prevDate prior pool bi waitOver fuel g h
-  have hnames := builtin_names_at_most_once_partial cfg now prevDate prior pool bi waitOver fuel g h hname
+  have hnames := builtin_names_at_most_once cfg now prevDate prior pool bi waitOver fuel g h
   have hre := generated_block_verifies cfg now prevDate prior pool bi waitOver fuel g h
   obtain ⟨hc0, hc1, _⟩ := cost_bound cfg now prevDate prior pool bi waitOver fuel g h hmax hsmall hb0 hbs
   obtain ⟨_, ⟨gp, ents, hi, he, hs, _⟩, hbc⟩ := generate_spec cfg (blockDate now prevDate) prior pool bi waitOver fuel g h
@@ -356,47 +366,47 @@ def hypsHold (cfg : Cfg) (bi : Builtins) (r : Except GenErr GS) : Bool :=
   match r with
   | .ok g =>
     g.incl.all (fun e => match e.key with
-      | .pool _ => e.p.bname.isNone && (match e.p.cost with | some c => decide (0 ≤ c) && decide (c < two62) | none => false)
+      | .pool _ => (match e.p.cost with | some c => decide (0 ≤ c) && decide (c < two62) | none => false)
       | .builtin _ => true)
     && decide (0 ≤ cfg.tol) && decide (cfg.maxBlockCost < two62) && bi.list.all (fun b => decide (0 ≤ b.2.cost.getD 0)) && decide (bsum bi.list ≤ cfg.maxBlockCost)
   | .error _ => false
 
 theorem hypsHold_sound (cfg : Cfg) (date : Int) (bi : Builtins) (g : GS) (h : hypsHold cfg bi (.ok g) = true) :
-    0 ≤ cfg.tol ∧ (∀ e ∈ (blockOf date g).txns, fromPool e → e.p.bname = none) ∧ cfg.maxBlockCost < two62 ∧
+    0 ≤ cfg.tol ∧ cfg.maxBlockCost < two62 ∧
     (∀ e ∈ (blockOf date g).txns, fromPool e → small e) ∧ (∀ b ∈ bi.list, 0 ≤ b.2.cost.getD 0) ∧ bsum bi.list ≤ cfg.maxBlockCost := by
   simp only [hypsHold, Bool.and_eq_true, List.all_eq_true, decide_eq_true_eq] at h
   obtain ⟨⟨⟨⟨h1, h0⟩, h2⟩, h3⟩, h4⟩ := h
-  refine ⟨h0, ?_, h2, ?_, h3, h4⟩
-  · intro e he ⟨n, hn⟩
-    have := h1 e he
-    rw [hn] at this
-    simp only [Bool.and_eq_true, Option.isNone_iff_eq_none] at this
-    exact this.1
-  · intro e he ⟨n, hn⟩
-    have := h1 e he
-    rw [hn] at this
-    simp only [Bool.and_eq_true] at this
-    cases hc : e.p.cost with
-    | none => simp [hc] at this
-    | some c =>
-      simp only [hc, Bool.and_eq_true, decide_eq_true_eq] at this
-      exact ⟨c, hc, this.2.1, this.2.2⟩
+  refine ⟨h0, h2, ?_, h3, h4⟩
+  intro e he ⟨n, hn⟩
+  have := h1 e he
+  rw [hn] at this
+  cases hc : e.p.cost with
+  | none => simp [hc] at this
+  | some c =>
+    simp only [hc, Bool.and_eq_true, decide_eq_true_eq] at this
+    exact ⟨c, hc, this.1, this.2⟩
 
-/-- non-vacuity of `generated_block_verifies_partial` / `cost_below_limit_partial` / `builtin_names_at_most_once_partial`:
+/-- non-vacuity of `generated_block_verifies_partial` / `cost_below_limit_partial`:
 the block generated from `exPool1` meets all their hypotheses. -/
 example : hypsHold (exCfg true 10000) (exPayFees (.ok [] [] []))
     (generate (exCfg true 10000) 0 0 exPrior exPool1 (exPayFees (.ok [] [] [])) true 20) = true := by decide
 
-/-- NEGATION WITNESS (finding `C45:pool-transaction-with-builtin-name-fails-verification`): client 6 submits a contract
-call whose function is merely NAMED `payFees`. The honest generator includes it and appends its own fee transaction;
-the honest verifier rejects the block. -/
+/-- HISTORICAL (finding `C45:pool-transaction-with-builtin-name-fails-verification`, repaired by 3af329c): client 6
+submits a contract call whose function is merely NAMED `payFees`. The generator now leaves it in the pool; the block is
+the first transaction plus the generator's own fee transaction, and it verifies. -/
 def exPool2 : List PTxn := [exTxn 0 .data 5 0 1 10 none, exTxn 1 .sc 6 0 4 100 (some .payFees)]
-theorem pool_builtin_name_in_block :
+theorem pool_builtin_name_skipped :
     keysOf (generate (exCfg true 10000) 0 0 exPrior exPool2 (exPayFees (.ok [] [] [])) true 20) =
-      [Key.pool 0, Key.pool 1, Key.builtin .payFees] := by decide
-theorem pool_builtin_name_fails_verification :
+      [Key.pool 0, Key.builtin .payFees] ∧
     verdict (exCfg true 10000) 0 exPrior (generate (exCfg true 10000) 0 0 exPrior exPool2 (exPayFees (.ok [] [] [])) true 20) =
-      some (some .txn) := by decide
+      some none := by decide
+/-- HISTORICAL: the block the generator built before the repair — the client's `payFees`-named call next to the real
+fee transaction — is still what the verifier refuses (its test goes by name); the repair is on the generator's side. -/
+theorem builtin_named_pool_txn_block_rejected :
+    (match verify (exCfg true 10000) exPrior
+        ⟨0, [⟨Key.pool 1, exTxn 1 .sc 6 0 4 100 (some .payFees), .success⟩,
+             ⟨Key.builtin .payFees, { (exTxn 0 .sc 3 0 1 100 (some .payFees)) with res := fun _ => CResult.ok [] [] [] }, .success⟩], exPrior⟩ with
+      | .ok _ => none | .error e => some e) = some VErr.txn := by decide
 
 /-- NEGATION WITNESS (finding `C45:cost-limit-bypassed-by-maxint-estimate`): the first transaction calls a function
 without a cost entry (estimate `MaxInt`); 100 + MaxInt wraps negative, it is included, and three transactions of cost
